@@ -997,8 +997,8 @@ func (b *qBuilder) rf(n *qsx) (report.Filter, error) {
 		}
 		return report.NewConditionFilter(v), nil
 	case "align", "alignfill", "aligncal", "aligncalfill":
-		if !b.ext && strings.HasPrefix(a[0].atom, "aligncal") {
-			return nil, errQBad // calendar periods: spec-only X cases / C05 Q cases
+		if !b.ext && strings.HasPrefix(a[0].atom, "aligncal") && !qCalHasTable(a) {
+			return nil, errQBad // calendar periods without the zone's offset table: spec-only X cases / C05 Q cases
 		}
 		ap, fm, err := qAlignArgs(a)
 		if err != nil {
@@ -1012,8 +1012,15 @@ func (b *qBuilder) rf(n *qsx) (report.Filter, error) {
 	return nil, errQBad
 }
 
-// qAlignArgs parses ( align periodNanos ) / ( alignfill periodNanos linear|forward|bogus ) and, for the spec-only
-// cases, ( aligncal day|week|month|quarter|halfyear|year 'zone ) / ( aligncalfill unit 'zone mode ).
+// qCalHasTable: ( aligncal unit 'zone init table ) / ( aligncalfill unit 'zone init table mode ) — the model-compared
+// form of a calendar aligner: the zone's offset table (C12's encoding: offset before the first listed change, then
+// when:off,when:off,... or -) travels in the case line for the Lean model; the real period is built from the zone NAME.
+func qCalHasTable(a []*qsx) bool {
+	return (a[0].atom == "aligncal" && len(a) == 5) || (a[0].atom == "aligncalfill" && len(a) == 6)
+}
+
+// qAlignArgs parses ( align periodNanos ) / ( alignfill periodNanos linear|forward|bogus ) and the calendar forms
+// ( aligncal day|week|month|quarter|halfyear|year 'zone [init table] ) / ( aligncalfill unit 'zone [init table] mode ).
 func qAlignArgs(a []*qsx) (timeseries.AlignmentPeriod, *timeseries.FillMode, error) {
 	if len(a) < 2 {
 		return nil, nil, errQBad
@@ -1066,6 +1073,24 @@ func qAlignArgs(a []*qsx) (timeseries.AlignmentPeriod, *timeseries.FillMode, err
 			return nil, nil, errQBad
 		}
 		rest = a[3:]
+		if qCalHasTable(a) {
+			// the table is for the model only; it must at least be well formed
+			is, err := qAtomOf(a[3])
+			if err != nil {
+				return nil, nil, err
+			}
+			if _, err := qInt64Atom(is); err != nil {
+				return nil, nil, errQBad
+			}
+			ts, err := qAtomOf(a[4])
+			if err != nil {
+				return nil, nil, err
+			}
+			if _, err := c12ParseTrans(ts); err != nil {
+				return nil, nil, errQBad
+			}
+			rest = a[5:]
+		}
 		filled = a[0].atom == "aligncalfill"
 	default:
 		return nil, nil, errQBad
@@ -1163,7 +1188,7 @@ func (b *qBuilder) df(n *qsx) (datasource.Filter, error) {
 	{
 		switch n.head() {
 		case "align", "alignfill", "aligncal", "aligncalfill":
-			if !b.ext && strings.HasPrefix(a[0].atom, "aligncal") {
+			if !b.ext && strings.HasPrefix(a[0].atom, "aligncal") && !qCalHasTable(a) {
 				return nil, errQBad
 			}
 			ap, fm, err := qAlignArgs(a)
